@@ -652,6 +652,13 @@ func (s *Server) leadershipAcquired(raft *raftNode) error {
 		return err
 	}
 
+	// Any replay of the Raft log has finished at this point. If the state was
+	// restored from a snapshot and no log entries followed it, there was no
+	// replay and thus nothing has started the restored streams and groups yet.
+	if _, _, err := s.startRecovered(); err != nil {
+		return err
+	}
+
 	// Subscribe to leader NATS subject for propagated requests.
 	sub, err := s.nc.Subscribe(s.getPropagateInbox(), s.handlePropagatedRequest)
 	if err != nil {
